@@ -301,9 +301,20 @@ def c07_retained(rng, sid, nscen):
                 if rng.random() < 0.15:
                     s["n"] = "$share/g/" + f
                     s["nl"] = False
-                steps.append(sub(2, [s], subid=rng.choice([0, 9])))
+                entries = [s]
+                if rng.random() < 0.3:
+                    # several entries in one SUBSCRIBE, each handled on its own: a shared filter first, plain ones behind it
+                    f2 = rng.choice([x for x in filters if x != f])
+                    entries = [{"n": "$share/g2/" + rng.choice(filters), "qos": rng.randrange(3), "rh": 0, "rap": False, "nl": False}, s,
+                               {"n": f2, "qos": rng.randrange(3), "rh": rng.choice([0, 1]), "rap": rng.random() < 0.4, "nl": False}]
+                steps.append(sub(2, entries, subid=rng.choice([0, 9])))
             else:
-                steps.append(sub(3, [{"n": f, "qos": rng.randrange(3)}]))
+                if rng.random() < 0.25:
+                    f2 = rng.choice([x for x in filters if x != f])
+                    steps.append(sub(3, [{"n": "$share/g3/" + rng.choice(filters), "qos": rng.randrange(3)}, {"n": f, "qos": rng.randrange(3)},
+                                         {"n": f2, "qos": rng.randrange(3)}]))
+                else:
+                    steps.append(sub(3, [{"n": f, "qos": rng.randrange(3)}]))
             steps.append(BARRIER)
             if rng.random() < 0.3:
                 # live forwarding of a retained publication to the existing subscriptions, and the store changes
